@@ -3,6 +3,9 @@
 import json, os, subprocess
 V = os.path.dirname(os.path.dirname(os.path.abspath(__file__)))
 TEXT = {
+ 'C07': ('identity monitor on the real Chemical.H/S/Cn functors and mixture models: reference values, wiring of the Cn integrals, finite differences on well-conditioned and synthetic polynomial models, gas pressure term, jumps at Tb/Tm, mole-weighted sums, extensivity, measured coefficient of the mixing term',
+         'Exploration: 22 database chemicals x 3 reference phases x 3 phases on random T grids and 3 pressures; 40/400 synthetic chemicals with all orderings of T_ref, Tm, Tb; 300/6000 random mixtures. The symbolic clause of the quantifier is out of reach for runtime monitoring (DESIGN section 6) and is replaced by this evaluation.',
+         'Finite-difference clauses skip database models whose own integral disagrees with their values (conditioning probe); R is the library constant.'),
  'C16': ('model-identity monitor: real UNIFAC / Dortmund / NIST / ideal model objects called on random compositions; vertex normalisation, Gibbs-Duhem residual by central differences, permutation equivariance, inert members, bit-identity of the caller array, functional form',
          'Exploration: seeded sets of 2-6 chemicals (+ members without groups), vertices / near-vertices / traces / interior points, T 250-450 K, all permutations for n<=4.',
          'Gibbs-Duhem bound 1e-4 of the largest term + 1e-7; NIST groups assigned by name on private uncached chemicals.'),
